@@ -22,13 +22,17 @@ theorem Same.trans {a b c : EState} (h1 : Same a b) (h2 : Same b c) : Same a c :
 structure Coh (c : Cfg) (s : EState) : Prop where
   e : ∀ x v, validE x = true → memoGetE c (snapE x) s = some v → specE c s.st x = .ok v
   a : ∀ x v, validA x = true → memoGetA c (snapA x) s = some v → specA c s.st x = .ok v
+  /-- and only registered nodes remember anything (without this, "an assignment keeps the memo coherent" would be
+      false of every configuration: an unregistered key is never reset) -/
+  ke : ∀ k v, memoGetE c k s = some v → (snapGet k c.wm.exprs).isSome = true
+  ka : ∀ k v, memoGetA c k s = some v → (snapGet k c.wm.atoms).isSome = true
 
 @[simp] theorem push_st (s : EState) (ev : Ev) : (s.push ev).st = s.st := rfl
 
 theorem same_push (s : EState) (ev : Ev) : Same s (s.push ev) := ⟨rfl, rfl, rfl, rfl⟩
 
 theorem coh_push {c : Cfg} {s : EState} (ev : Ev) (h : Coh c s) : Coh c (s.push ev) :=
-  ⟨fun x v hv hm => h.e x v hv hm, fun x v hv hm => h.a x v hv hm⟩
+  ⟨fun x v hv hm => h.e x v hv hm, fun x v hv hm => h.a x v hv hm, fun k v hm => h.ke k v hm, fun k v hm => h.ka k v hm⟩
 
 theorem snapGet_snapSet {α} (k k' : Snap) (v : α) (m : List (Snap × α)) :
     snapGet k (snapSet k' v m) = if k == k' then some v else snapGet k m := by
@@ -63,46 +67,72 @@ theorem coh_putE {c : Cfg} {s : EState} (hi : SnapInj) (h : Coh c s) (x : Expr) 
     (hx : validE x = true) (hv : specE c s.st x = .ok v) : Coh c (memoPutE c (snapE x) v s) := by
   unfold memoPutE
   by_cases hm : c.memo = true
-  · simp only [hm, if_true]
-    constructor
-    · intro y w hy hg
-      simp only [memoGetE, hm, if_true] at hg
-      rw [snapGet_snapSet] at hg
-      by_cases hk : (snapE y == snapE x) = true
-      · simp only [hk, if_true] at hg
-        have : snapE y = snapE x := by simpa using hk
-        have := hi.expr y x hy hx this
-        subst this
-        cases hg
-        exact hv
-      · simp only [hk] at hg
-        exact h.e y w hy (by simp only [memoGetE, hm, if_true]; exact hg)
-    · intro y w hy hg
-      exact h.a y w hy hg
-  · simp only [hm]
+  · by_cases hr : (snapGet (snapE x) c.wm.exprs).isSome = true
+    · simp only [hm, hr, Bool.and_self, if_true]
+      refine ⟨?_, ?_, ?_, ?_⟩
+      · intro y w hy hg
+        simp only [memoGetE, hm, if_true] at hg
+        rw [snapGet_snapSet] at hg
+        by_cases hk : (snapE y == snapE x) = true
+        · simp only [hk, if_true] at hg
+          have : snapE y = snapE x := by simpa using hk
+          have := hi.expr y x hy hx this
+          subst this
+          cases hg
+          exact hv
+        · simp only [hk] at hg
+          exact h.e y w hy (by simp only [memoGetE, hm, if_true]; exact hg)
+      · intro y w hy hg
+        exact h.a y w hy hg
+      · intro k w hg
+        simp only [memoGetE, hm, if_true] at hg
+        rw [snapGet_snapSet] at hg
+        by_cases hk : (k == snapE x) = true
+        · have : k = snapE x := by simpa using hk
+          rw [this]; exact hr
+        · simp only [hk] at hg
+          exact h.ke k w (by simp only [memoGetE, hm, if_true]; exact hg)
+      · intro k w hg
+        exact h.ka k w hg
+    · simp only [hm, hr, Bool.and_false, Bool.false_eq_true, if_false]
+      exact h
+  · simp only [hm, Bool.false_and, Bool.false_eq_true, if_false]
     exact h
 
 theorem coh_putA {c : Cfg} {s : EState} (hi : SnapInj) (h : Coh c s) (x : Atom) (v : Val)
     (hx : validA x = true) (hv : specA c s.st x = .ok v) : Coh c (memoPutA c (snapA x) v s) := by
   unfold memoPutA
   by_cases hm : c.memo = true
-  · simp only [hm, if_true]
-    constructor
-    · intro y w hy hg
-      exact h.e y w hy hg
-    · intro y w hy hg
-      simp only [memoGetA, hm, if_true] at hg
-      rw [snapGet_snapSet] at hg
-      by_cases hk : (snapA y == snapA x) = true
-      · simp only [hk, if_true] at hg
-        have : snapA y = snapA x := by simpa using hk
-        have := hi.atom y x hy hx this
-        subst this
-        cases hg
-        exact hv
-      · simp only [hk] at hg
-        exact h.a y w hy (by simp only [memoGetA, hm, if_true]; exact hg)
-  · simp only [hm]
+  · by_cases hr : (snapGet (snapA x) c.wm.atoms).isSome = true
+    · simp only [hm, hr, Bool.and_self, if_true]
+      refine ⟨?_, ?_, ?_, ?_⟩
+      · intro y w hy hg
+        exact h.e y w hy hg
+      · intro y w hy hg
+        simp only [memoGetA, hm, if_true] at hg
+        rw [snapGet_snapSet] at hg
+        by_cases hk : (snapA y == snapA x) = true
+        · simp only [hk, if_true] at hg
+          have : snapA y = snapA x := by simpa using hk
+          have := hi.atom y x hy hx this
+          subst this
+          cases hg
+          exact hv
+        · simp only [hk] at hg
+          exact h.a y w hy (by simp only [memoGetA, hm, if_true]; exact hg)
+      · intro k w hg
+        exact h.ke k w hg
+      · intro k w hg
+        simp only [memoGetA, hm, if_true] at hg
+        rw [snapGet_snapSet] at hg
+        by_cases hk : (k == snapA x) = true
+        · have : k = snapA x := by simpa using hk
+          rw [this]; exact hr
+        · simp only [hk] at hg
+          exact h.ka k w (by simp only [memoGetA, hm, if_true]; exact hg)
+    · simp only [hm, hr, Bool.and_false, Bool.false_eq_true, if_false]
+      exact h
+  · simp only [hm, Bool.false_and, Bool.false_eq_true, if_false]
     exact h
 
 theorem same_putE (c : Cfg) (k : Snap) (v : Val) (s : EState) : Same s (memoPutE c k v s) := by
@@ -153,7 +183,7 @@ theorem callMethod_sound {c : Cfg} (hp : MethodsPure c) (site : Snap) (s : EStat
           have := h3 0 s.st
           refine ⟨?_, ⟨rfl, rfl, rfl, by simp⟩, ?_⟩
           · simp [this]
-          · exact ⟨fun x v hx hg => hc.e x v hx hg, fun x v hx hg => hc.a x v hx hg⟩
+          · exact ⟨fun x v hx hg => hc.e x v hx hg, fun x v hx hg => hc.a x v hx hg, fun k v hg => hc.ke k v hg, fun k v hg => hc.ka k v hg⟩
       | goSlice => simp only; split <;> (try split) <;> (try split) <;> exact ⟨rfl, Same.rfl' s, hc⟩
       | jArr => simp only; split <;> (try split) <;> (try split) <;> exact ⟨rfl, Same.rfl' s, hc⟩
       | goMap => simp only; split <;> (try split) <;> exact ⟨rfl, Same.rfl' s, hc⟩
